@@ -358,6 +358,7 @@ func C20(p *core.Program, r *core.Report) {
 	// ---- (6) link events reach the link state the arc costs are computed from
 	checkLinkEvents(p, r)
 	checkDisappearanceAfterDeactivation(p, r)
+	checkOwnRecordAndPurge(p, r)
 
 	// ---- (5) AT
 	g := newGuardedEngine(p)
@@ -576,4 +577,73 @@ func checkDisappearanceAfterDeactivation(p *core.Program, r *core.Report) {
 	})
 	r.Count("forwarded PeerDisappeared statuses in Manager.handler", n)
 	r.Min("forwarded PeerDisappeared statuses in Manager.handler", 1)
+}
+
+// checkOwnRecordAndPurge: (a) the arcs of the node itself come from
+// dtlsr.peers; computeRoutingTable adds them first and the arcs of
+// receivedData afterwards (AddArc overwrites). The node's own broadcast is
+// announced to NotifyNewBundle like any other bundle: if it were stored in
+// receivedData, a former state of the own links would override the current
+// one (a lost link costs 0 again until the next broadcast). So no record is
+// stored in receivedData unless its ID was found different from the node's.
+// (b) purging a long-lost neighbour changes the own record: it gets a newer
+// time stamp (receivers replace only by strictly newer data) and the change
+// flag, in the same step as the removal.
+func checkOwnRecordAndPurge(p *core.Program, r *core.Report) {
+	nn := p.Func(routingPkg, "DTLSR", "NotifyNewBundle")
+	n := 0
+	core.EachInstr(nn, func(in ssa.Instruction) {
+		mu, ok := in.(*ssa.MapUpdate)
+		if !ok || !pathEndsWith(mu.Map, "receivedData") {
+			return
+		}
+		n++
+		okOwn := false
+		for _, cd := range core.DominatingConds(mu.Block()) {
+			b, ok := cd.V.(*ssa.BinOp)
+			if !ok || !((b.Op == token.EQL && !cd.True) || (b.Op == token.NEQ && cd.True)) {
+				continue
+			}
+			for _, pair := range [][2]ssa.Value{{b.X, b.Y}, {b.Y, b.X}} {
+				if pathEndsWith(pair[0], "ID") && pathEndsWith(pair[1], "NodeId") {
+					okOwn = true
+				}
+			}
+		}
+		r.Check(okOwn, fmt.Sprintf("own-record/%s/receivedData#%d", fname(nn), n), "link-state data is stored in receivedData only if it is not the node's own (data.ID != NodeId): the own links are described by dtlsr.peers, a stored echo of an earlier broadcast would override their current state in computeRoutingTable", p.Pos(mu.Pos()), "", "the node's own broadcast can be stored as received data: after a link loss the routing table keeps using the lost neighbour at cost 0 until the next broadcast")
+	})
+	r.Count("stores into DTLSR.receivedData", n)
+	r.Min("stores into DTLSR.receivedData", 2)
+
+	pp := p.Func(routingPkg, "DTLSR", "purgePeers")
+	nDel := 0
+	core.EachInstr(pp, func(in ssa.Instruction) {
+		c, ok := in.(*ssa.Call)
+		if !ok {
+			return
+		}
+		b, ok := c.Common().Value.(*ssa.Builtin)
+		if !ok || b.Name() != "delete" || !pathEndsWith(c.Common().Args[0], "peers", "Peers") {
+			return
+		}
+		nDel++
+		l := core.InnermostLoop(core.Loops(pp), in.Block())
+		leaves := func(i ssa.Instruction) bool {
+			if core.IsReturn(i) {
+				return true
+			}
+			return l != nil && i.Block() == l.Header
+		}
+		okStamp, _ := core.MustPassAfter(in, func(i ssa.Instruction) bool {
+			st, ok := i.(*ssa.Store)
+			return ok && pathEndsWith(st.Addr, "peers", "Timestamp")
+		}, leaves)
+		okFlag, _ := core.MustPassAfter(in, func(i ssa.Instruction) bool {
+			st, ok := i.(*ssa.Store)
+			return ok && core.IsField(st.Addr, routingPkg, "DTLSR", "peerChange") && core.IsBoolConst(st.Val, true)
+		}, leaves)
+		r.Check(okStamp && okFlag, "link-events/"+fname(pp)+"/purge-stamps-record", "removing a long-lost neighbour from the own record gives the record a new time stamp and flags the change in the same step (other nodes replace link-state data only by strictly newer data: without the stamp they keep the purged link for ever)", p.Pos(in.Pos()), "", fmt.Sprintf("record stamped: %v, change flagged: %v", okStamp, okFlag))
+	})
+	r.Count("peer removals in purgePeers", nDel)
+	r.Min("peer removals in purgePeers", 1)
 }
